@@ -23,8 +23,9 @@ ALL_KEYS = ('tz1', 'tz2', 'tz3', 'tz4')
 CLASSES = ('bls-signature-size-not-budgeted', 'fill-prices-only-first-content-of-batch')
 # must equal Sims of OpFees.tla (checked at start-up against a value printed by TLC would be overkill: the replay compares
 # every limit the model derives from them with the implementation's)
-SIMS = [(0, 0, False), (1, 0, False), (100000, 0, False), (1000999, 300, True), (1040000000, 59643, True), (168000, 0, True),
-        (12345678, 16384, False)]
+SIMS = [(0, 0, False, 0), (1, 0, False, 0), (100000, 0, False, 0), (1000999, 300, True, 0), (1040000000, 59643, True, 0), (168000, 0, True, 0),
+        (12345678, 16384, False, 0), (2000000, 0, False, 1), (100000, 77, True, 2)]
+INT_MILLIGAS = 1500500
 
 
 BLS_SIGN_ATTEMPTS = 2
@@ -43,11 +44,13 @@ def fam(name, batch, kinds=ALL_KINDS, keys=ALL_KEYS, modes=('fill', 'autofill'),
 
 def families(quick):
     if quick:
-        return [fam('b2', 2), fam('big', 1, kinds=('transaction',), keys=('tz1', 'tz4'), modes=('autofill', 'fill'), sims=(1, 2, 6), big=(17, 33, 49)), fam('b3', 3, kinds=('transaction', 'reveal', 'origination'), sims=(2, 4, 5)),
+        return [fam('b2', 2), fam('big', 1, kinds=('transaction',), keys=('tz1', 'tz4'), modes=('autofill', 'fill'), sims=(1, 2, 6), big=(17, 33, 49)),
+                fam('internal', 2, kinds=('transaction', 'transaction_kt', 'origination'), modes=('autofill',), sims=(8, 9, 3), uniform=False), fam('b3', 3, kinds=('transaction', 'reveal', 'origination'), sims=(2, 4, 5)),
                 fam('mixed-sims', 2, kinds=('transaction', 'origination'), keys=('tz1', 'tz4'), modes=('autofill',), sims=(1, 3, 5, 7), uniform=False)]
     return [fam('b3', 3, sims=(1, 2, 3, 4, 5, 6, 7), chains=(10, 16383)),
             fam('big', 1, kinds=('transaction',), modes=('autofill', 'fill'), sims=(1, 2, 3, 6), big=(17, 25, 33, 40, 47, 49, 64, 95)),
             fam('b4', 4, kinds=('transaction', 'reveal', 'origination'), sims=(1, 4, 5)),
+            fam('internal', 3, kinds=('transaction', 'transaction_kt', 'origination'), modes=('autofill',), sims=(8, 9, 3, 4), uniform=False),
             fam('mixed-sims', 3, kinds=('transaction', 'transaction_kt', 'origination'), modes=('autofill',), sims=(1, 2, 3, 4, 5, 6, 7), uniform=False)]
     # Not a registered family (the property does not quantify over protocol constants; every network in the repository uses
     # 1040000 / 60000): fam('other-hard-limits', 2, hard_gas=2080000, hard_storage=30000) makes FeeOKmodDev fail - fill() takes the gas
@@ -67,8 +70,8 @@ def observe(kinds, key_kind, mode, sim_ix, chain, hard_gas, hard_storage):
     if mode == 'autofill':
         spec = []
         for j, kind in enumerate(kinds):
-            mg, pdiff, alloc = SIMS[(sim_ix[0] if j == 0 else sim_ix[1]) - 1]
-            spec.append({'consumed_milligas': mg, 'paid_storage_size_diff': pdiff,
+            mg, pdiff, alloc, nint = SIMS[(sim_ix[0] if j == 0 else sim_ix[1]) - 1]
+            spec.append({'consumed_milligas': mg, 'paid_storage_size_diff': pdiff, 'internal': [INT_MILLIGAS] * nint,
                          'originated' if kind == 'origination' else 'allocated_destination_contract': alloc})
         node.sim_script.append(spec)
         f = g.autofill()
